@@ -159,6 +159,7 @@ func (t *Table) DecrRef() error {
 		for i := 0; i < t.offsetsLength(); i++ {
 			t.opt.BlockCache.Del(t.blockCacheKey(i))
 		}
+		y.VerifIO("unlink", t.Fd.Name())
 		if err := t.Delete(); err != nil {
 			return err
 		}
@@ -244,6 +245,7 @@ func (b *Block) verifyCheckSum() error {
 
 func CreateTable(fname string, builder *Builder) (*Table, error) {
 	bd := builder.Done()
+	y.VerifIO("open", fname)
 	mf, err := z.OpenMmapFile(fname, os.O_CREATE|os.O_RDWR|os.O_EXCL, bd.Size)
 	if err == z.NewFile {
 		// Expected.
@@ -253,8 +255,10 @@ func CreateTable(fname string, builder *Builder) (*Table, error) {
 		return nil, fmt.Errorf("file already exists: %s", fname)
 	}
 
+	y.VerifIO("mmapwrite", fname)
 	written := bd.Copy(mf.Data)
 	y.AssertTrue(written == len(mf.Data))
+	y.VerifIO("msync", fname)
 	if err := z.Msync(mf.Data); err != nil {
 		return nil, y.Wrapf(err, "while calling msync on %s", fname)
 	}
